@@ -37,6 +37,12 @@ def jobs_for(tier, rng):
             jobs += [((a, b), W, N, 3, sd), ((b, a), W, N, 3, sd + 1), ((a + 1, b - 1), W, N, 3, sd + 2), ((a, b), W, N, 3, sd + 3)]
         else:
             jobs += [((a, b, c3), W, N, 3, sd), ((c3, a, b), W, N, 3, sd + 1), ((b, c3, a), W, N, 3, sd + 2), ((a, b, c3), W, N, 3, sd + 3)]
+    for g in range(6 if tier == "quick" else 30):
+        W = rng.choice(list(Ws))
+        N = rng.choice(list(Ns))
+        a, d = W + rng.randint(6, 12), rng.randint(1, 3)            # a - 2d >= W: every series holds at least one window
+        jobs.append(((a, a - d, a + d), W, N, 3, rng.randrange(1 << 30)))              # mean length == first length
+        jobs.append(((a, a + d, a - 2 * d, a + d), W, N, 3, rng.randrange(1 << 30)))
     for W in Ws:
         for T in range(W, W + extra + 1):
             for N in Ns:
